@@ -293,17 +293,19 @@ func depth2Families(w []Val) []*core.Family {
 	return []*core.Family{{
 		Name: "l2-pairings",
 		Desc: fmt.Sprintf("every (parent, operand position, child) pairing of %d operator forms (%d pairings), all leaf tuples over %d leaves, %d environments", len(children), len(combos), len(leaves), len(envs)),
-		N:    int64(len(combos)),
+		N:    int64(len(combos)) * nl,
 		Run: func(t *core.T, i int64) {
-			cb := combos[i]
+			cb := combos[i/nl]
+			first := i % nl
 			slots := cb.c.Arity + cb.p.Arity - 1
-			total := pow(int(nl), slots)
+			total := pow(int(nl), slots-1)
 			nt := false
 			var last *Expr
 			for r := int64(0); r < total; r++ {
 				x := r
 				ls := make([]*Expr, slots)
-				for j := slots - 1; j >= 0; j-- {
+				ls[0] = leaves[first]
+				for j := slots - 1; j >= 1; j-- {
 					ls[j] = leaves[x%nl]
 					x /= nl
 				}
